@@ -4,6 +4,7 @@ rejection of cells that cannot be tiled (DESIGN §3 C04)."""
 from __future__ import annotations
 
 import ast
+import re
 
 import sympy as sp
 
@@ -289,6 +290,44 @@ def _r04g(rep):
                  f"entry {bad[0][:2] if bad else ''} of the relative axes is {bad[0][2] if bad else '?'}: the rows of the supercell matrix are not divided by the frame length of the same row, so the trimmed lattice is D S D^-1 applied to L instead of S^T L — same determinant (the atom-count checks pass), different lattice, for any non-diagonal matrix whose rows have different frame lengths", line=arms[0].lineno)
 
 
+
+def _r04i(rep):
+    """The surrounding frame of the old-style construction is spanned by the supercell basis vectors."""
+    from engine import symnp
+
+    rep.rule("R04i", "surrounding frame: the eight points whose extent gives the frame are 0, a, b, c, b+c, c+a, a+b, a+b+c with a, b, c the COLUMNS of the supercell matrix (the supercell basis vectors in unit-cell coordinates), and frame[i] is the extent of their i-th coordinate (symbolic evaluation on a 3x3 matrix of symbols)", 2)
+    fn = core.find_def(CELLS, "Supercell._get_surrounding_frame")
+    par = fn.args.args[1].arg
+    M = symnp.matrix("m", 3, 3)
+    ev = symnp.Evaluator({par: M}, where=f"{CELLS}::Supercell._get_surrounding_frame")
+    frame_stmt = None
+    for st in fn.body:
+        if isinstance(st, (ast.Assign, ast.Return)) and st.value is not None and any(isinstance(x, ast.Call) and core.src(x.func) in ("max", "min", "np.max", "np.min", "np.ptp", "np.amax", "np.amin") for x in ast.walk(st.value)):
+            frame_stmt = st
+            continue
+        if isinstance(st, ast.Assign) and len(st.targets) == 1 and isinstance(st.targets[0], ast.Name):
+            ev.env[st.targets[0].id] = ev.ev(st.value)
+    if frame_stmt is None:
+        raise AnalysisError("Supercell._get_surrounding_frame: the extent computation vanished")
+    # the array whose extent is taken
+    arrs = {x.value.id for x in ast.walk(frame_stmt.value) if isinstance(x, ast.Subscript) and isinstance(x.value, ast.Name) and x.value.id in ev.env and symnp.shape(ev.env[x.value.id])[-1:] == (3,) and len(symnp.shape(ev.env[x.value.id])) == 2}
+    if len(arrs) != 1:
+        raise AnalysisError(f"Supercell._get_surrounding_frame: cannot tell which points the extent is taken of ({sorted(arrs)})")
+    pts = ev.env[arrs.pop()]
+    got = {tuple(sp.expand(x) for x in row) for row in pts}
+    cols = [[M[r][k] for r in range(3)] for k in range(3)]
+    want = set()
+    import itertools
+
+    for c in itertools.product((0, 1), repeat=3):
+        want.add(tuple(sp.expand(sum(c[k] * cols[k][r] for k in range(3))) for r in range(3)))
+    rep.instance("R04i", CELLS, "Supercell._get_surrounding_frame", f"{len(got)} corner points of the supercell parallelepiped", got == want,
+                 f"the points whose extent defines the frame are not the combinations of the columns of the supercell matrix (e.g. {sorted(map(str, got - want))[:2]}): the box is the one of the transposed matrix, too small for some valid matrices (axis-relabelling ones), whose supercells then lose atoms and are rejected although the SNF construction builds them", line=fn.lineno)
+    t = core.src(frame_stmt.value).replace(" ", "")
+    ok_f = bool(re.search(r"for(\w+)in\(0,1,2\)|for(\w+)inrange\(3\)", t)) and "[:," in t
+    rep.instance("R04i", CELLS, "Supercell._get_surrounding_frame", core.norm(core.src(frame_stmt), 90), ok_f, "the frame is not the extent of coordinate i of the corner points for i = 0, 1, 2", line=frame_stmt.lineno)
+
+
 _run_main = run
 
 
@@ -298,6 +337,7 @@ def run(rep: core.Report):
     _run_main(rep)
     shared_trunc.run(rep, "R04f")
     _r04g(rep)
+    _r04i(rep)
     from rules import shared_bcast
 
     shared_bcast.run(rep, "R04h", sorted(core.python_files("phonopy/structure")))
@@ -327,6 +367,8 @@ def selftest():
     n("dot written as matmul", CELLS, "            cart_diffs = np.dot(frac_diffs, self.cell)", "            cart_diffs = frac_diffs @ self.cell")
     b("trimming frame divided column-wise by broadcasting", CELLS, "            trim_frame = np.array(\n                [\n                    mat[0] / float(multi[0]),\n                    mat[1] / float(multi[1]),\n                    mat[2] / float(multi[2]),\n                ]\n            )", "            trim_frame = mat / np.array(multi, dtype=\"double\")", "R04g", "trim_frame")
     n("trimming frame divided row-wise by broadcasting", CELLS, "            trim_frame = np.array(\n                [\n                    mat[0] / float(multi[0]),\n                    mat[1] / float(multi[1]),\n                    mat[2] / float(multi[2]),\n                ]\n            )", "            trim_frame = mat / np.array(multi, dtype=\"double\")[:, None]")
+    b("surrounding frame from the rows of the supercell matrix", CELLS, "                m[:, 0],\n                m[:, 1],\n                m[:, 2],\n                m[:, 1] + m[:, 2],\n                m[:, 2] + m[:, 0],\n                m[:, 0] + m[:, 1],\n                m[:, 0] + m[:, 1] + m[:, 2],", "                m[0],\n                m[1],\n                m[2],\n                m[1] + m[2],\n                m[2] + m[0],\n                m[0] + m[1],\n                m[0] + m[1] + m[2],", "R04i", "corner points")
+    n("surrounding frame corners by a product with the transposed matrix", CELLS, "        axes = np.array(\n            [\n                [0, 0, 0],\n                m[:, 0],\n                m[:, 1],\n                m[:, 2],\n                m[:, 1] + m[:, 2],\n                m[:, 2] + m[:, 0],\n                m[:, 0] + m[:, 1],\n                m[:, 0] + m[:, 1] + m[:, 2],\n            ]\n        )", "        corners = [[i, j, k] for i in (0, 1) for j in (0, 1) for k in (0, 1)]\n        axes = np.dot(corners, m.T)")
     from rules import shared_trunc
 
     shared_trunc.variants(b, None, "R04f")
